@@ -75,19 +75,19 @@ func _goml_inherent_Point_Point_to_string(self__1 Point) string {
     var x1 int32 = mtmp0.x
     var x2 int32 = mtmp0.y
     var x3 Color = mtmp0.color
-    var color__4 Color = x3
-    var y__3 int32 = x2
-    var x__2 int32 = x1
+    var __field2__4 Color = x3
+    var __field1__3 int32 = x2
+    var __field0__2 int32 = x1
     var t18 string = "Point { " + "x: "
-    var t19 string = int32_to_string(x__2)
+    var t19 string = int32_to_string(__field0__2)
     var t17 string = t18 + t19
     var t16 string = t17 + ", "
     var t15 string = t16 + "y: "
-    var t20 string = int32_to_string(y__3)
+    var t20 string = int32_to_string(__field1__3)
     var t14 string = t15 + t20
     var t13 string = t14 + ", "
     var t12 string = t13 + "color: "
-    var t21 string = _goml_inherent_Color_Color_to_string(color__4)
+    var t21 string = _goml_inherent_Color_Color_to_string(__field2__4)
     var t11 string = t12 + t21
     ret44 = t11 + " }"
     return ret44
@@ -109,19 +109,19 @@ func _goml_inherent_Line_Line_to_string(self__8 Line) string {
     var x5 Point = mtmp4.from
     var x6 Point = mtmp4.to
     var x7 Color = mtmp4.color
-    var color__11 Color = x7
-    var to__10 Point = x6
-    var from__9 Point = x5
+    var __field2__11 Color = x7
+    var __field1__10 Point = x6
+    var __field0__9 Point = x5
     var t29 string = "Line { " + "from: "
-    var t30 string = _goml_inherent_Point_Point_to_string(from__9)
+    var t30 string = _goml_inherent_Point_Point_to_string(__field0__9)
     var t28 string = t29 + t30
     var t27 string = t28 + ", "
     var t26 string = t27 + "to: "
-    var t31 string = _goml_inherent_Point_Point_to_string(to__10)
+    var t31 string = _goml_inherent_Point_Point_to_string(__field1__10)
     var t25 string = t26 + t31
     var t24 string = t25 + ", "
     var t23 string = t24 + "color: "
-    var t32 string = _goml_inherent_Color_Color_to_string(color__11)
+    var t32 string = _goml_inherent_Color_Color_to_string(__field2__11)
     var t22 string = t23 + t32
     ret46 = t22 + " }"
     return ret46
